@@ -163,7 +163,7 @@ fn known_regression(ctx: &Ctx) {
 fn run(ctx: &Ctx) {
 	known_regression(ctx);
 	let n = scaled(ctx, 5_000, 120_000);
-	ctx.run_prop("locked", n, scenario(), |sc, dir| run_scenario(sc, dir, false));
+	ctx.run_prop_shrink("locked", n, 40, scenario(), |sc, dir| run_scenario(sc, dir, false));
 }
 
 fn replay(ctx: &Ctx, path: &Path) -> Result<(), Failure> {
